@@ -225,7 +225,7 @@ def cmd_intake(a):
             meta = {'property': a.id, 'summary': 'meta unreadable: %r' % ex}
         meta['property'] = a.id
         meta['origin'] = 'independent sub-agent given only the property text and a scratch worktree' + (
-            ' (second round: also told, in one sentence each, which two changes had already been made for this property, to get different ones)' if a.offset else '')
+            (' (round %d: also told, in one sentence each, which changes had already been made for this property, to get different ones)' % (a.offset // 2 + 1)) if a.offset else '')
         with open(os.path.join(d, 'meta.json'), 'w') as f:
             json.dump(meta, f, indent=1)
         made.append(d)
